@@ -81,6 +81,9 @@ type zzWrappedAgg struct {
 	args []interface{}
 }
 
+// zzBoom is the panic value of the panicking user function.
+type zzBoom struct{}
+
 type zzErrUser struct{ fn string }
 
 func (e zzErrUser) Error() string { return "user function " + e.fn + " failed" }
@@ -119,6 +122,14 @@ func zzAddFuncs(c *Config) {
 	})
 	c.SetAggregateFunction("agg", mkAgg("agg"))
 	c.SetAggregateFunction("agh", mkAgg("agh"))
+	// boomnum panics on a number (after other values of the same evaluation went
+	// through): the caller may recover and go on using the library
+	c.SetFilterFunction("boomnum", func(v interface{}) (interface{}, error) {
+		if _, ok := v.(float64); ok {
+			panic(zzBoom{})
+		}
+		return zzWrapped{fn: "boomnum", arg: v}, nil
+	})
 	// failrt fails with one of the library's own runtime errors (as a function
 	// does that calls Retrieve itself and returns that error unchanged)
 	c.SetFilterFunction("failrt", func(v interface{}) (interface{}, error) {
